@@ -117,8 +117,9 @@ func (sm *ShardManager) cleanupRoutine(ls *loadedShard, backupFrequency, backupC
 		case <-timer.C:
 			sm.logger.Debug().Str("shardDir", shardDir).Msg("Unloading shard")
 			ls.mu.Lock()
-			defer ls.mu.Unlock() // we commit to exiting the cleanup goroutine here
+			// we commit to exiting the cleanup goroutine here
 			if ls.shard == nil {
+				ls.mu.Unlock()
 				sm.logger.Debug().Str("shardDir", shardDir).Msg("Shard already unloaded")
 				return
 			}
@@ -145,8 +146,16 @@ func (sm *ShardManager) cleanupRoutine(ls *loadedShard, backupFrequency, backupC
 			// is closed in case they are waiting on the lock
 			sm.logger.Debug().Str("shardDir", shardDir).Msg("Removing loaded shard")
 			ls.shard = nil
+			/* The shard lock has to be released before taking the store lock.
+			 * Collection deletion takes them in the opposite order, store lock
+			 * then shard lock, and the two would wait for each other for ever
+			 * while every other request queues up behind the store lock. */
+			ls.mu.Unlock()
 			sm.shardLock.Lock()
-			delete(sm.shardStore, shardDir)
+			// A new instance may have been registered for this directory already
+			if sm.shardStore[shardDir] == ls {
+				delete(sm.shardStore, shardDir)
+			}
 			sm.shardLock.Unlock()
 			// ---------------------------
 			return
